@@ -202,7 +202,7 @@ func (s *c06State) checkSelect(p *rm.Pred, cols []string, star bool, phase strin
 			where = " WHERE " + p.SQL("")
 		}
 	}
-	sql := "SELECT " + list + " FROM " + s.t.Name + where + ";"
+	sql := "SELECT " + list + " FROM " + s.tname() + where + ";"
 	must, may := rm.Select(s.t, p, cols)
 	var r sqlx.Result
 	useAuto := s.r.Intn(4) == 0
@@ -278,6 +278,21 @@ func stripLitLeft(p *rm.Pred) *rm.Pred {
 	q.LitLeft = false
 	q.L, q.R = stripLitLeft(p.L), stripLitLeft(p.R)
 	return &q
+}
+
+// tname spells the table name for a statement: a quarter of the statements use another letter case than the catalog's
+// lower case (table names are case-insensitive in the front end of the pinned tree).
+func (s *c06State) tname() string {
+	n := s.t.Name
+	switch s.r.Intn(8) {
+	case 0:
+		s.res.Add("statements_with_table_name_in_other_case", 1)
+		return strings.ToUpper(n)
+	case 1:
+		s.res.Add("statements_with_table_name_in_other_case", 1)
+		return strings.ToUpper(n[:1]) + n[1:]
+	}
+	return n
 }
 
 func (s *c06State) fullCompare(after string) {
@@ -438,7 +453,7 @@ func c06Run(env *core.Env, idx int) *core.CaseResult {
 		return row
 	}
 	insert := func(rows []rm.Row) bool {
-		sql, ok := sqlx.InsertSQL(s.t.Name, cols, rows)
+		sql, ok := sqlx.InsertSQL(s.tname(), cols, rows)
 		for _, row := range rows {
 			for _, c := range row {
 				if !c.Null && !gen.LitAccepted(c) {
@@ -594,7 +609,7 @@ func c06Run(env *core.Env, idx int) *core.CaseResult {
 			if dc > 0 {
 				continue
 			}
-			sql := "DELETE FROM " + s.t.Name + " WHERE " + p.SQL("") + ";"
+			sql := "DELETE FROM " + s.tname() + " WHERE " + p.SQL("") + ";"
 			s.runDML(sql, p, mt, n)
 		default: // update
 			p := gen.Pred(r, s.t, 1+r.Intn(3), r.Intn(2) == 0, -1)
@@ -649,7 +664,7 @@ func c06Run(env *core.Env, idx int) *core.CaseResult {
 			if tooWide {
 				continue
 			}
-			sql := "UPDATE " + s.t.Name + " SET " + strings.Join(sets, ", ") + " WHERE " + p.SQL("") + ";"
+			sql := "UPDATE " + s.tname() + " SET " + strings.Join(sets, ", ") + " WHERE " + p.SQL("") + ";"
 			s.runDML(sql, p, mt, n)
 		}
 	}
